@@ -270,6 +270,52 @@ impl<'a> Norm<'a> {
                 }
             }
         }
+        // N16: S.read_exact(&mut V[a..b]) ==> S.read_exact_range(&mut V, a, b);  `a..` ==> read_exact_from(&mut V, a)
+        // (vstd has no specification for `IndexMut<Range>` on Vec; the adapter states what the sub-slice denotes)
+        if let Expr::MethodCall(mc) = e {
+            if mc.method == "read_exact" && mc.args.len() == 1 {
+                if let Expr::Reference(rf) = &mc.args[0] {
+                    if rf.mutability.is_some() {
+                        if let Expr::Index(ix) = &*rf.expr {
+                            if let Expr::Range(rg) = &*ix.index {
+                                if let syn::RangeLimits::HalfOpen(_) = rg.limits {
+                                    let base = &ix.expr;
+                                    let recv = &mc.receiver;
+                                    match (&rg.start, &rg.end) {
+                                        (Some(lo), Some(hi)) => {
+                                            *e = parse_quote!(#recv.read_exact_range(&mut #base, #lo, #hi));
+                                            self.stats.bump("N16.read_exact_subslice");
+                                            return;
+                                        }
+                                        (Some(lo), None) => {
+                                            *e = parse_quote!(#recv.read_exact_from(&mut #base, #lo));
+                                            self.stats.bump("N16.read_exact_subslice");
+                                            return;
+                                        }
+                                        _ => {}
+                                    }
+                                }
+                            }
+                        }
+                    }
+                }
+            }
+        }
+        // N9: X.map_err(|e| anyhow::anyhow!(..))  ==>  v_map_err_anyhow(X)
+        if let Expr::MethodCall(me) = e {
+            if me.method == "map_err" && me.args.len() == 1 {
+                if let Expr::Closure(cl) = &me.args[0] {
+                    if let Expr::Macro(m) = &*cl.body {
+                        if path_last(&m.mac.path) == "anyhow" {
+                            let r = &me.receiver;
+                            *e = parse_quote!(v_map_err_anyhow(#r));
+                            self.stats.bump("N9.map_err_anyhow");
+                            return;
+                        }
+                    }
+                }
+            }
+        }
         // R.try_into().map_err(|_| X)?   ==>  match v_try_into(&R) { Ok(a) => a, Err(_) => return Err(X) }
         if let Expr::Try(t) = e {
             if let Expr::MethodCall(me) = &*t.expr {
